@@ -1,5 +1,6 @@
 import KinModel.Drv.Util
 import KinModel.DocValidate
+import KinModel.DocValidateMode
 open Lean
 namespace KinModel.Drv.C04
 open KinModel.Drv KinModel.DocValidate
@@ -307,8 +308,6 @@ def optListOf (j : Json) : List OptCall :=
 
 def dedup (l : List String) : List String := l.eraseDups
 
-def hasObjVal (d : Doc) : Bool := d.attrs.vals.any (fun kv => match kv.2 with | .obj _ => true | _ => false)
-
 def handle (j : Json) : Json :=
   let env : Env := { root := getD j "doc" Json.null, detach := strs (getArr j "detach") }
   let ol := optListOf j
@@ -321,14 +320,19 @@ def handle (j : Json) : Json :=
   let cache := before.foldl (fun c b =>
     cacheAfter codeTable c (optsOf Gen.optionCtors (optListOf b))
       (mkRoot { root := getD b "doc" Json.null, detach := strs (getArr b "detach") })) []
-  let m := validateIn codeTable cache o d
+  -- F-C04-8: with options one record serves the run; inside the class `leakClass` the reading at the parameter examples
+  -- is the response reading (`seen_all_res`), outside it (options + object examples) the reading is not modelled
+  let leak := !ol.isEmpty && !o.exDisabled && nodes.any hasObjVal   -- with examples validation off no example is read
+  let narrow := leak && leakClass true o d
+  let m := if narrow then validateRes codeTable o d else validateIn codeTable cache o d
   let s := specVerdict so d
   let o := so
   let excl :=
     (if nodes.any excl7Node then ["ExclTemplateNames"] else []) ++
     (if nodes.any (exclBelow [(.schema, "xml"), (.schema, "discriminator")] o) then ["ExclExtraFieldsUnchecked"] else []) ++
     (if nodes.any (exclInnerNode o) then ["ExclInnerRefSiblings"] else []) ++
-    (if nodes.any (exclBelow [(.encoding, "headers")] o) then ["ExclEncodingHeaderErrorsDropped"] else [])
+    (if nodes.any (exclBelow [(.encoding, "headers")] o) then ["ExclEncodingHeaderErrorsDropped"] else []) ++
+    (if narrow then ["ExclExampleModeLeaks"] else [])
   let viols := nodes.flatMap (fun n => (violations n).map (fun v =>
     s!"{v.rule}@{kindName n.kind}" ++ (if enabled o v then "" else ":off")))
   let branches := dedup (viols ++
@@ -344,7 +348,7 @@ def handle (j : Json) : Json :=
   jobj [
     -- object examples are read plainly only in calls without options (`optionless_examples_read_plainly`); with options
     -- the reading depends on the request bodies / responses met before in the run: outside the modelled fragment
-    ("model", jobj [("ok", Json.bool m), ("unmodelled", Json.bool (nodes.any valsUnmodelled || (!ol.isEmpty && nodes.any hasObjVal)))]),
+    ("model", jobj [("ok", Json.bool m), ("unmodelled", Json.bool (nodes.any valsUnmodelled || (leak && !narrow)))]),
     ("spec", Json.str (match s with | .accept => "accept" | .reject => "reject" | .unspecified => "unspecified")),
     ("excl", jstrs excl),
     ("branches", jstrs branches)]
